@@ -277,3 +277,22 @@ def wellformed_violations(texts, H, **kw):
         if not isinstance(e, tl.Timeout):
             bad.append({"what": "exception " + tl.classify_exc(e), "message": str(e)[:200]})
     return count[0], bad[:5]
+
+
+def replay_record(obj, H=3, **kw):
+    """re-run the program(s) of a failure record on the current tree: `input` (a list of programs, each a text or a list of input
+    texts) when present, otherwise `text` — split at the markers the checks use to join several inputs or several programs"""
+    def run(prog):
+        if isinstance(prog, str) and "\n%%% next input\n" in prog:
+            prog = prog.split("\n%%% next input\n")
+        return impl_models(prog, obj.get("h", H), **kw)
+    inp = obj.get("input")
+    if isinstance(inp, list) and inp and all(isinstance(x, (str, list)) for x in inp):
+        return [run(x) for x in inp]
+    text = obj.get("text", "")
+    for marker in ("\n%%% versus the same program over a propositional atom\n", "\n%%% versus its instantiation\n",
+                   "\n%%% versus the documented reading\n", "\n%%% versus\n", "\n%%% solved after\n", "\n%%% solved again after\n"):
+        if marker in text:
+            return [run(t) for t in text.split(marker)]
+    text = text.split("\n%%% run with ")[0]
+    return run(text)
